@@ -138,11 +138,14 @@ static int print_i(void (*printchar_handler)(void *d, int c),
 
     len = (int)(end - str);
     /* the precision is a minimum number of digits, sign and prefix do not
-     * count; the 0 flag fills what sign, prefix and digits leave of the width */
-    zero_count = len < min_len ? min_len - len
-                 : (ops & OPS_FLAG_ZERO_PAD) && !(ops & OPS_FLAG_LEFT_ALIGN)
-                     ? width - len - prefix_len
-                     : 0;
+     * count; the 0 flag fills what sign, prefix and digits leave of the width
+     * unless there is a '-' flag or a precision */
+    zero_count =
+        len < min_len ? min_len - len
+        : (ops & OPS_FLAG_ZERO_PAD) &&
+                !(ops & (OPS_FLAG_LEFT_ALIGN | OPS_PREC_IS_GIVEN))
+            ? width - len - prefix_len
+            : 0;
     zero_count = MAX(zero_count, 0);
     /* alternate octal form: one more zero unless the first digit is a zero
      * already */
@@ -605,7 +608,7 @@ int __printf(void (*printchar_handler)(void *d, int c),
                           0,
                           width,
                           sizeof tmp.vp * 2,
-                          ops | (OPS_FLAG_WITH_SPEC | OPS_FLAG_ZERO_PAD),
+                          ops | (OPS_FLAG_WITH_SPEC | OPS_PREC_IS_GIVEN),
                           16);
             break;
         case 'n':
